@@ -425,7 +425,7 @@ func handOverRules(c *Ctx, rule, rule3 string) {
 		// a role operation inside nested helpers lies on every successful path when each call of its chain does, in its own function
 		chainCutsSuccess := func(rc roleCall) bool {
 			for _, l := range rc.chain {
-				if !cutsSuccessIn(l.env, l.call) {
+				if !cutsSuccessIn(l.env, l.call.(ssa.CallInstruction)) {
 					return false
 				}
 			}
@@ -593,7 +593,7 @@ func handOverRules(c *Ctx, rule, rule3 string) {
 				for _, rcall := range roleOps {
 					if rcall.acct != x.dst && rcall.adds {
 						for _, l := range rcall.chain {
-							if !cutUnderIn(l.env, l.call) {
+							if !cutUnderIn(l.env, l.call.(ssa.CallInstruction)) {
 								okAll, what = false, "the role addition"
 							}
 						}
@@ -675,8 +675,8 @@ func handOverRules(c *Ctx, rule, rule3 string) {
 // passesOneOf: every successful return of the routine (level 0 of the chains) has passed one of the operations, each given
 // with the calls that lead from the routine down to it: at every level the call lies on every successful path of its function.
 func passesOneOf(env *Env, level int, chains [][]callLevel, assume []Fact) bool {
-	groups := map[ssa.CallInstruction][][]callLevel{}
-	var order []ssa.CallInstruction
+	groups := map[ssa.Instruction][][]callLevel{}
+	var order []ssa.Instruction
 	for _, ch := range chains {
 		if level >= len(ch) || ch[level].env.Fn != env.Fn {
 			continue
@@ -716,7 +716,7 @@ type roleCall struct {
 
 type callLevel struct {
 	env  *Env
-	call ssa.CallInstruction
+	call ssa.Instruction // the call that leads one level down; at the last level the operation itself
 }
 
 // roleCalls: calls in env's function whose callee rewrites a role list (reaches SaveKeyValue) and deletes resp. appends the given role constant.
@@ -888,11 +888,35 @@ func isRoleRemover(fn *ssa.Function) bool {
 		for _, in := range b.Instrs {
 			if st, ok := in.(*ssa.Store); ok {
 				if fa, ok := st.Addr.(*ssa.FieldAddr); ok && isFieldOf(fa, "esdt.ESDTRoles", "Roles") {
-					if _, ok := st.Val.(*ssa.Slice); ok {
+					if rootedAtReslice(st.Val, map[ssa.Value]bool{}) {
 						return true
 					}
 				}
 			}
+		}
+	}
+	return false
+}
+
+// rootedAtReslice: the stored list is a re-slice, or is grown from one (`kept := xs[:0]; for … { kept = append(kept, x) }`): the
+// filter idiom that rebuilds the list in place.
+func rootedAtReslice(v ssa.Value, seen map[ssa.Value]bool) bool {
+	if seen[v] {
+		return false
+	}
+	seen[v] = true
+	switch x := v.(type) {
+	case *ssa.Slice:
+		return true
+	case *ssa.Phi:
+		for _, ed := range x.Edges {
+			if rootedAtReslice(ed, seen) {
+				return true
+			}
+		}
+	case *ssa.Call:
+		if bi, ok := x.Call.Value.(*ssa.Builtin); ok && bi.Name() == "append" {
+			return rootedAtReslice(x.Call.Args[0], seen)
 		}
 	}
 	return false
